@@ -118,13 +118,13 @@ func Run(r *common.Run) error {
 		r.Mark("case rcpt-corpus %d", n)
 		runRcpt(r, parseIDs(c.ids), strings.Split(c.sched, ","), "rcpt-corpus")
 	}
-	nS := r.Pick(400, 6000)
+	nS := r.Pick(2500, 40000)
 	for n := 0; n < nS; n++ {
 		r.Mark("case sess-random %d", n)
 		reqs := randReqs(r.Rnd)
 		runSess(r, reqs, randSched(r.Rnd, len(reqs), 10+r.Rnd.Intn(30)), "sess-random")
 	}
-	nR := r.Pick(300, 4000)
+	nR := r.Pick(1500, 25000)
 	for n := 0; n < nR; n++ {
 		r.Mark("case rcpt-random %d", n)
 		ids := randIDs(r.Rnd)
